@@ -30,6 +30,16 @@ def cq_consts(**kw):
     return c
 
 
+def never_taken(out, module):
+    """Actions with zero states in the LAST coverage report of a TLC run (-coverage prints interim reports too)."""
+    last = {}
+    for line in out.splitlines():
+        m = re.match(r"^<(\w+) line \d+, col .* of module (\w+)>: (\d+):(\d+)", line.strip())
+        if m and m.group(2) == module:
+            last[m.group(1)] = int(m.group(4))
+    return sorted(a for a, n in last.items() if n == 0)
+
+
 def model_checking(ctx, sd, res):
     """All exhaustive TLC runs (own thread: they only need CPU while the replays mostly wait for real time)."""
     try:
@@ -43,7 +53,9 @@ def model_checking(ctx, sd, res):
         if not q:
             # processes stop and start (tables lost), three meta nodes, a stale second leader
             ctx.write_cfg(sd, "L2.cfg", "Spec", lease_consts(D=1, MaxNow=2, MaxEvents=3, AllowRestart=True), X01 + X02 + X04)
-            ctx.tlc_check(sd, "Lease", "L2.cfg", workers=8, timeout=1800, coverage=True)
+            r = ctx.tlc_check(sd, "Lease", "L2.cfg", workers=8, timeout=1800, coverage=True)
+            if never_taken(r["out"], "Lease"):
+                raise Infra("vacuity: actions of Lease.tla never taken in L2.cfg: %s" % never_taken(r["out"], "Lease"))
             ctx.write_cfg(sd, "L3.cfg", "Spec", lease_consts(Meta=['"m1"', '"m2"', '"m3"'], D=1, MaxNow=2, MaxEvents=2), X01 + X02 + X04)
             ctx.tlc_check(sd, "Lease", "L3.cfg", workers=8, timeout=1800)
             ctx.write_cfg(sd, "L4.cfg", "Spec", lease_consts(D=1, MaxNow=2, MaxEvents=3, AllowStale=True),
@@ -78,7 +90,9 @@ def model_checking(ctx, sd, res):
         # two services, the lease moving between them, restarts / manual runs / failing queries
         ctx.write_cfg(sd, "Q1.cfg", "Spec", cq_consts(Nodes={1, 2}, Is={4} if q else {2, 4}, Es={0, 2} if q else {0, 2, 8}, Fs={0, 8},
                                                       Os={0} if q else {0, 2}, MaxNow=ctx.pick(50, 52), MaxFaults=1), X03)
-        ctx.tlc_check(sd, "CQSched", "Q1.cfg", workers=8, timeout=1800, coverage=not q)
+        r = ctx.tlc_check(sd, "CQSched", "Q1.cfg", workers=8, timeout=1800, coverage=not q)
+        if not q and never_taken(r["out"], "CQSched"):
+            raise Infra("vacuity: actions of CQSched.tla never taken in Q1.cfg: %s" % never_taken(r["out"], "CQSched"))
         # leads: what the hand-over of the lease (no fault at all) does to the cluster-wide view
         leads = {}
         all_leads = [("Lead_ClusterAtMostOnce", 0), ("Lead_ClusterNoGap", 0), ("Lead_FailedQueryNoGap", 1)]
